@@ -41,10 +41,10 @@ def _sha(paths_or_bytes):
     return h.hexdigest()
 
 
-def _repo_files(subdirs, exts):
+def _repo_files(subdirs, exts, repo=None):
     out = []
     for sd in subdirs:
-        root = os.path.join(REPO, sd)
+        root = os.path.join(repo or REPO, sd)
         for dp, dn, fn in os.walk(root):
             dn.sort()
             for f in sorted(fn):
@@ -72,10 +72,32 @@ def build_extractor(force=False):
     return EXTRACTOR
 
 
+SCRATCH_OF = os.environ.get("LCDB_SCRATCH_OF")   # scratch copy of this tree: reuse its build description
+
+
 def compdb():
     """Units of the library target with the project's real flags."""
-    cfg = os.path.join(WORK, "cfg")
-    cm = [os.path.join(REPO, "CMakeLists.txt")] + _repo_files(["cmake"], (".cmake", ".txt", ".in"))
+    if SCRATCH_OF:
+        return _compdb_scratch()
+    return _compdb(REPO, os.path.join(WORK, "cfg"))
+
+
+def _compdb_scratch():
+    """REPO is a scratch copy (src/ + include/ only) of SCRATCH_OF: take the
+    unit list and flags from the original's build description and re-point
+    the paths.  A unit added by the mutation itself would need a real
+    configure - scratch copies never add units."""
+    units = _compdb(SCRATCH_OF, os.path.join(WORK, "cfg"))
+    out = []
+    for u in units:
+        src = u["src"].replace(SCRATCH_OF.rstrip("/") + "/", REPO.rstrip("/") + "/", 1)
+        flags = [a.replace(SCRATCH_OF.rstrip("/") + "/", REPO.rstrip("/") + "/") for a in u["flags"]]
+        out.append({"src": src, "flags": flags})
+    return out
+
+
+def _compdb(REPO, cfg):
+    cm = [os.path.join(REPO, "CMakeLists.txt")] + _repo_files(["cmake"], (".cmake", ".txt", ".in"), REPO)
     key = _sha(cm)
     stamp = os.path.join(cfg, ".verif-key")
     fresh = (os.path.exists(os.path.join(cfg, "build.ninja")) and os.path.exists(stamp)
